@@ -192,10 +192,15 @@ fn profile(name: &str) -> RawCfg {
             ..base
         },
         // initial configurations
-        "alloc_minlen_page" => RawCfg {
-            min_len: 4096,
-            ..profile("alloc")
-        },
+        "alloc_minlen_page" => {
+            let mut c = RawCfg {
+                min_len: 4096,
+                ..profile("alloc")
+            };
+            // the file is also grown explicitly between operations
+            c.kinds.insert("set_min_len");
+            c
+        }
         "alloc_minlen_big" => RawCfg {
             min_len: MIB + 4096,
             ..profile("alloc")
